@@ -172,8 +172,18 @@ const ACC: [i32; 4] = [libc::O_RDONLY, libc::O_WRONLY, libc::O_RDWR, libc::O_PAT
 
 pub fn open_flags(rng: &mut Rng, has_fifo: bool) -> i32 {
     let mut fl = *rng.pick(&ACC);
-    if rng.chance(1, 10) {
-        fl |= libc::O_PATH;
+    if fl & libc::O_PATH != 0 && !rng.chance(1, 12) {
+        // openat2 accepts only these together with O_PATH
+        for (bit, num, den) in [
+            (libc::O_NOFOLLOW, 1, 2),
+            (libc::O_DIRECTORY, 1, 3),
+            (libc::O_CLOEXEC, 1, 3),
+        ] {
+            if rng.chance(num, den) {
+                fl |= bit;
+            }
+        }
+        return fl;
     }
     for (bit, num, den) in [
         (libc::O_NOFOLLOW, 1, 3),
